@@ -130,9 +130,14 @@ func c18case(c *wk.Ctx, idx int, r *mrand.Rand, k int, p *big.Int) {
 	}
 	s1 := rbytes(r, []int{0, 1, 8, 16, 32, 64}[r.Intn(6)])
 	s2 := rbytes(r, []int{0, 1, 8, 16, 32, 64}[r.Intn(6)])
-	// a generator the specification allows for this modulus (for Telegram's usual prime: 3, 4, 7)
+	// the server's group: Telegram's usual prime, or (one case in three) another safe prime, for which every g in
+	// 2..7 is valid; the generator is one the specification allows for the modulus (usual prime: 3, 4, 7)
+	if k%3 == 2 {
+		p = srpsrv.SafePrimeAllGenerators
+		c.Count("modulus.other_safe_prime", 1)
+	}
 	gens := validGenerators(p)
-	g := int(gens[r.Intn(len(gens))])
+	g := int(gens[(k/3)%len(gens)])
 	c.Count(fmt.Sprintf("generator.g=%d", g), 1)
 	srv := srpsrv.NewServer(p, g, s1, s2, []byte(pw))
 	// server secret b; corner: B begins with a zero byte (searched: ~256 modexps)
